@@ -211,13 +211,14 @@ func Run(opt Options) int {
 	}
 	cfg := interp.Config{
 		SolverCmd: solverCmd(), QueryTimeout: 10000, MaxSteps: 3_000_000, MaxPaths: 250000, MaxSymSize: 16,
-		Workers: opt.Workers, Verbose: opt.Verbose, Seed: opt.Seed, Thorough: thorough, DumpSMT: opt.DumpSMT, MaxPreemptions: 2,
+		Workers: opt.Workers, Verbose: opt.Verbose, Seed: opt.Seed, Thorough: thorough, DumpSMT: opt.DumpSMT, MaxPreemptions: 2, MaxOrderDeviations: 1,
 	}
 	if thorough {
 		cfg.QueryTimeout = 60000
 		cfg.MaxPaths = 1500000
 		cfg.MaxSteps = 20_000_000
 		cfg.MaxPreemptions = 3
+		cfg.MaxOrderDeviations = 2
 	}
 	if opt.PathBudget > 0 {
 		cfg.MaxPaths = opt.PathBudget
@@ -349,7 +350,13 @@ func Run(opt Options) int {
 					wantRace = true
 				}
 			}
-			res, out, err := NativeReplay(opt.Repo, opt.Verif, hp.dir, hp.name, hp.files, hp.funcs, dir, 5*time.Minute, wantRace)
+			procs := 1
+			for _, c := range cs {
+				if strings.HasPrefix(c.v.Label, "seed-independent") {
+					procs = 10
+				}
+			}
+			res, out, err := NativeReplay(opt.Repo, opt.Verif, hp.dir, hp.name, hp.files, hp.funcs, dir, 5*time.Minute, wantRace, procs)
 			os.RemoveAll(dir)
 			if err != nil || len(res) < len(cs) {
 				fmt.Fprintf(os.Stderr, "native replay problem: %v (%d of %d results)\n%s\n", err, len(res), len(cs), tail(out, 4000))
@@ -367,6 +374,10 @@ func Run(opt Options) int {
 						if l == c.v.Label {
 							confirmed[c.file] = true
 						}
+					}
+					// an order leak shows as different outputs in fresh processes, never inside one
+					if strings.HasPrefix(c.v.Label, "seed-independent") && r.SeedDependent {
+						confirmed[c.file] = true
 					}
 				case "panic":
 					// a panic inside the harness goroutine, or one that killed the test process
@@ -560,7 +571,11 @@ func ReplayOne(opt Options, path string) int {
 			dir, _ := os.MkdirTemp("", "verif-cex-")
 			defer os.RemoveAll(dir)
 			os.WriteFile(filepath.Join(dir, filepath.Base(path)), b, 0o644)
-			res, out, err := NativeReplay(opt.Repo, opt.Verif, hp.dir, hp.name, hp.files, hp.funcs, dir, 5*time.Minute, rf.Kind == "race")
+			procs := 1
+			if strings.HasPrefix(rf.Label, "seed-independent") {
+				procs = 10
+			}
+			res, out, err := NativeReplay(opt.Repo, opt.Verif, hp.dir, hp.name, hp.files, hp.funcs, dir, 5*time.Minute, rf.Kind == "race", procs)
 			if opt.Verbose || err != nil {
 				fmt.Println(tail(out, 8000))
 			}
@@ -582,6 +597,11 @@ func ReplayOne(opt Options, path string) int {
 				}
 			}
 			if rf.Kind == "panic" && r.Status == "panic" {
+				fmt.Printf("VIOLATION property=%s replay=%s\n", rf.Property, path)
+				return 1
+			}
+			if r.SeedDependent {
+				fmt.Printf("outputs differ between fresh processes: %q\n", r.Outputs)
 				fmt.Printf("VIOLATION property=%s replay=%s\n", rf.Property, path)
 				return 1
 			}
